@@ -1,16 +1,15 @@
 #!/bin/sh
-# tools/try_seed.sh <worktree-with-change> [props...]  -- confirm a seeded change and run the checks against it.
-# 1. tests pass with the change  2. demo fails with the change  3. demo passes on the original sources
-# 4. every check (or the listed ones) is run with PDESY_SRC=<worktree>; exit codes are listed.
+# tools/try_seed.sh <worktree> [props...]  -- confirm a seeded change (taken from <worktree>/_seed/patch.diff) and run the checks against it.
+# git stash is shared between worktrees, so it is never used here: the worktree is reset and the patch applied explicitly.
 WT="$1"; shift
 PROPS="${*:-C01 C02 C03 C04 C05 C06 C07 C08 C09 C10 C11 C12 C13 C14 C15 C16 C17 C18 C19 C20}"
 cd "$WT" || exit 2
+git checkout -q -- pDESy
+echo "== demo on original (expect success)"; PYTHONPATH="$WT" timeout 300 /venv/bin/python _seed/demo.py > /tmp/demo_without.out 2>&1; echo "exit=$?"; tail -2 /tmp/demo_without.out
+git apply _seed/patch.diff || { echo "patch does not apply"; exit 2; }
 echo "== diff stat"; git diff --stat -- pDESy | tail -3
 echo "== tests with change"; /venv/bin/python -m pytest -q -p no:cacheprovider -x 2>&1 | tail -1
 echo "== demo with change (expect failure)"; PYTHONPATH="$WT" timeout 300 /venv/bin/python _seed/demo.py > /tmp/demo_with.out 2>&1; echo "exit=$?"; tail -3 /tmp/demo_with.out
-git stash -q -- pDESy
-echo "== demo on original (expect success)"; PYTHONPATH="$WT" timeout 300 /venv/bin/python _seed/demo.py > /tmp/demo_without.out 2>&1; echo "exit=$?"; tail -2 /tmp/demo_without.out
-git stash pop -q
 echo "== checks against the change"
 cd /verif || exit 2
 for p in $PROPS; do
